@@ -9,7 +9,7 @@ alteration, RFC 4226 truncation and the ±1 window of `check_totp`, the shape of
 the data a cryptosign client signs and that a verifier with a correct signature scheme accepts it.
 
 What is NOT proved: that the Lean reference SHA-1/SHA-256/HMAC/PBKDF2 equal OpenSSL's (they are
-kernel-evaluated on the RFC vectors in Model/Crypto/Vectors.lean and compared differentially with the
+kernel-evaluated on the RFC vectors in Model/Crypto/Vectors/*.lean and compared differentially with the
 real functions and with hashlib by harness/c19.py), any cryptographic hardness, Ed25519, Argon2id.
 -/
 namespace Abverif.Auth
